@@ -365,6 +365,22 @@ pub mod reference {
         let s = Stream::new_lzma_decoder(u64::MAX).map_err(|e| format!("{e:?}"))?;
         run(s, input, cap)
     }
+    fn lzma1_filters(dict: u32, lc: u32, lp: u32, pb: u32) -> Result<Filters, String> {
+        let mut o = LzmaOptions::new_preset(6).map_err(|e| format!("{e:?}"))?;
+        o.dict_size(dict).literal_context_bits(lc).literal_position_bits(lp).position_bits(pb);
+        let mut f = Filters::new();
+        f.lzma1(&o);
+        Ok(f)
+    }
+    /// raw LZMA1 (no header, end marker) from the reference encoder with explicit dictionary size and lc/lp/pb
+    pub fn lzma1_raw_encode(data: &[u8], dict: u32, lc: u32, lp: u32, pb: u32) -> Result<Vec<u8>, String> {
+        let s = Stream::new_raw_encoder(&lzma1_filters(dict, lc, lp, pb)?).map_err(|e| format!("{e:?}"))?;
+        run(s, data, data.len() * 2 + 65536)
+    }
+    pub fn lzma1_raw_decode(input: &[u8], dict: u32, lc: u32, lp: u32, pb: u32, cap: usize) -> Result<Vec<u8>, String> {
+        let s = Stream::new_raw_decoder(&lzma1_filters(dict, lc, lp, pb)?).map_err(|e| format!("{e:?}"))?;
+        run(s, input, cap)
+    }
     pub fn lzma2_raw_decode(input: &[u8], dict: u32, cap: usize) -> Result<Vec<u8>, String> {
         let mut o = LzmaOptions::new_preset(6).map_err(|e| format!("{e:?}"))?;
         o.dict_size(dict);
